@@ -37,6 +37,7 @@ THEOREMS = [
     "KrroodVerif.Eql.C01_cex_flattenNot",
     # quantified conditions (Props/C01Quant.lean; lemmas Lemmas/EqlQuant.lean)
     "KrroodVerif.Eql.C01_quant_sound_complete_partial",
+    "KrroodVerif.Eql.C01_quant_tree_sound_complete_partial",
     "KrroodVerif.Eql.C01_exists_sound_complete_partial",
     "KrroodVerif.Eql.C01_forall_sound_complete_partial",
     "KrroodVerif.Eql.C01_not_exists_sound_complete_partial",
@@ -44,6 +45,8 @@ THEOREMS = [
     "KrroodVerif.Eql.C01_forall_empty_error",
     "KrroodVerif.Eql.C01_quantProved_sound_complete",  # the decidable predicate the DRIVER evaluates per case (frag=ql)
     "KrroodVerif.Eql.ql_qinv",
+    "KrroodVerif.Eql.qt_qinv2",
+    "KrroodVerif.Eql.ql_qt",
     "KrroodVerif.Eql.exists_qinv",
     "KrroodVerif.Eql.forAll_qinv",
     "KrroodVerif.Eql.closed_eval",
@@ -156,7 +159,22 @@ def gen_quant_family(rng):
     if rng.random() < 0.3:
         parts.append(G.gen_cond(rng, vs, kinds, rng.randrange(1, 3), [], 0, False, rng.random() < 0.5, True))
     rng.shuffle(parts)
-    cond = _conj(rng, parts + [Q])
+    k = rng.random()
+    if k < 0.75 or kind in ("forall", "not-exists"):
+        cond = _conj(rng, parts + [Q])                      # the quantifier LAST (chain fragment)
+    elif k < 0.9:
+        # and-TREE: a closed `exists` first, conjuncts and the quantifier after it (`v` is a second quantified variable
+        # with the domain and kind of `u`)
+        doms["v"], kinds["v"] = list(doms[qn]), kinds[qn]
+        first = ("exists", "v", G.gen_atom(rng, ["v"], kinds, 0, must="v"))
+        cond = _conj(rng, [first] + parts + [Q])
+        kind = "tree-" + kind
+    else:
+        # the quantifier in the MIDDLE: conjuncts after an `exists` (outside the chain fragment, inside the tree fragment
+        # when they do not use `u`)
+        tail = [G.gen_atom(rng, vs, kinds, 0, must=rng.choice(vs))]
+        cond = _conj(rng, parts + [Q] + tail)
+        kind = "mid-" + kind
     sel = [("var", v) for v in rng.sample(vs, rng.randrange(1, nv + 1))]
     return {"sel": sel, "cond": cond, "objs": objs, "doms": doms, "kinds": kinds}, kind
 
